@@ -45,6 +45,7 @@ type Selection struct {
 
 type sweeper struct {
 	curRoots []*ssa.Function
+	pathVisiting map[ssa.Value]bool
 	p    *load.Program
 	iv   *InitVals
 	obls []*core.Obl
